@@ -136,15 +136,14 @@ Qed.
 
 (* the run of read_card over any replies: the accumulator is only ever set by a status information;
    a listed application makes it Bank, never Membership *)
-Theorem bank_if_listed ixa ixs acc v tlv subs s app :
+Theorem bank_if_listed ixa ixs acc v tlv s app :
   ixs <> ixa ->
   field_of "zvt::packets::StatusInformation" v 6 = Some (VSome tlv) ->
-  field_of "zvt::packets::tlv::StatusInformation" tlv 96 = Some (VList subs) ->
-  In s subs -> field_of "zvt::packets::tlv::Subs" s 67 = Some (VSome app) ->
+  In s (application_list tlv) -> field_of "zvt::packets::tlv::Subs" s 67 = Some (VSome app) ->
   h_read_card ixa ixs acc ixs v = (None, Some CBank).
 Proof.
-  intros H H1 H2 Hin H3. unfold h_read_card. destruct (ixs =? ixa) eqn:E; [lia|]. rewrite N.eqb_refl, H1, H2.
-  destruct subs as [|s0 sr]; [contradiction|].
+  intros H H1 Hin H3. unfold h_read_card. destruct (ixs =? ixa) eqn:E; [lia|]. rewrite N.eqb_refl, H1.
+  destruct (application_list tlv) as [|s0 sr] eqn:El; [contradiction|].
   assert (X : existsb has_application (s0 :: sr) = true).
   { apply existsb_exists. exists s. split; [exact Hin|]. unfold has_application. rewrite H3. reflexivity. }
   rewrite X. reflexivity.
@@ -152,40 +151,47 @@ Qed.
 
 (* ... whatever else the entries carry: with an application list the answer is Bank or an error,
    the accumulator never becomes a membership id *)
-Theorem listed_never_membership ixa ixs acc v tlv s0 rest :
+Theorem listed_never_membership ixa ixs acc v tlv :
   ixs <> ixa ->
   field_of "zvt::packets::StatusInformation" v 6 = Some (VSome tlv) ->
-  field_of "zvt::packets::tlv::StatusInformation" tlv 96 = Some (VList (s0 :: rest)) ->
+  application_list tlv <> [] ->
   h_read_card ixa ixs acc ixs v = (None, Some CBank) \/
   h_read_card ixa ixs acc ixs v = (Some (RErr EUnknownCardType), acc).
 Proof.
-  intros H H1 H2. unfold h_read_card. destruct (ixs =? ixa) eqn:E; [lia|]. rewrite N.eqb_refl, H1, H2.
-  destruct (existsb has_application (s0 :: rest)); [left|right]; reflexivity.
+  intros H H1 H2. unfold h_read_card. destruct (ixs =? ixa) eqn:E; [lia|]. rewrite N.eqb_refl, H1.
+  destruct (application_list tlv) as [|s0 sr]; [congruence|].
+  destruct (existsb has_application (s0 :: sr)); [left|right]; reflexivity.
 Qed.
 
 (* the open finding of C18 (known_findings.json), stated exactly: a list none of whose entries names an application makes the call
    fail with "unknown card type" — also when the terminal reports a UID, which the property wants reported as membership id *)
-Theorem idless_list_is_unknown_card_type ixa ixs acc v tlv s0 rest :
+Theorem idless_list_is_unknown_card_type ixa ixs acc v tlv :
   ixs <> ixa ->
   field_of "zvt::packets::StatusInformation" v 6 = Some (VSome tlv) ->
-  field_of "zvt::packets::tlv::StatusInformation" tlv 96 = Some (VList (s0 :: rest)) ->
-  existsb has_application (s0 :: rest) = false ->
+  application_list tlv <> [] -> existsb has_application (application_list tlv) = false ->
   h_read_card ixa ixs acc ixs v = (Some (RErr EUnknownCardType), acc).
 Proof.
-  intros H H1 H2 H3. unfold h_read_card. destruct (ixs =? ixa) eqn:E; [lia|]. rewrite N.eqb_refl, H1, H2, H3. reflexivity.
+  intros H H1 H2 H3. unfold h_read_card. destruct (ixs =? ixa) eqn:E; [lia|]. rewrite N.eqb_refl, H1.
+  destruct (application_list tlv) as [|s0 sr]; [congruence|]. rewrite H3. reflexivity.
 Qed.
 
 Theorem membership_canonical ixa ixs acc v tlv u :
   ixs <> ixa ->
   field_of "zvt::packets::StatusInformation" v 6 = Some (VSome tlv) ->
-  (field_of "zvt::packets::tlv::StatusInformation" tlv 96 = Some (VList []) \/
-   field_of "zvt::packets::tlv::StatusInformation" tlv 96 = None) ->
+  application_list tlv = [] ->
   field_of "zvt::packets::tlv::StatusInformation" tlv 76 = Some (VSome (VStr u)) ->
   h_read_card ixa ixs acc ixs v = (None, Some (CMember (canon_spec u))).
 Proof.
   intros H H1 H2 H3. unfold h_read_card. destruct (ixs =? ixa) eqn:E; [lia|].
-  rewrite N.eqb_refl, H1, H3, canon_uid_spec. destruct H2 as [-> | ->]; reflexivity.
+  rewrite N.eqb_refl, H1, H2, H3, canon_uid_spec. reflexivity.
 Qed.
+
+(* where the list comes from: the top-level entries (tag 0x60), then the "applications on card" container (tag 0x62) *)
+Lemma application_list_spec tlv top card :
+  field_of "zvt::packets::tlv::StatusInformation" tlv 96 = Some (VList top) ->
+  field_of "zvt::packets::tlv::StatusInformation" tlv 98 = Some (VSome (VRec [VList card])) ->
+  application_list tlv = top ++ card.
+Proof. intros H1 H2. unfold application_list. rewrite H1, H2. reflexivity. Qed.
 
 Theorem timeout_is_no_card ixa ixs acc rest :
   fst (h_read_card ixa ixs acc ixa (VRec (VInt 108 :: rest))) = Some (RErr ENoCard).
@@ -665,23 +671,35 @@ Qed.
 
 (* every receipt number the terminal reports — 0 .. 9999 or anything else — is handed on for reversal; only the FFFF marker means
    "nothing pending" *)
-Theorem pending_reports_receipt ixa v r : abort_code v = 184 ->
+Theorem pending_reports_receipt ixa sk v r : abort_code v = 184 ->
   field_of "zvt::packets::PartialReversalAbort" v 135 = Some (VSome (VInt r)) ->
-  fst (h_pending ixa tt ixa v) = Some (if r =? 65535 then ROk [] else ROk [r]).
+  fst (h_pending ixa sk tt ixa v) = Some (if r =? 65535 then ROk [] else ROk [r]).
 Proof. intros Hc H. unfold h_pending. rewrite N.eqb_refl, Hc, H. cbn [fst negb N.eqb]. destruct (r =? 65535); reflexivity. Qed.
 
 (* C20, since the fix of F11: the query itself can be aborted — any result code other than 0xB8 (the code its answer carries) makes the
    query, and with it the chain and the call, fail with that code *)
-Theorem pending_abort_surfaces ixa v : abort_code v <> 184 ->
-  fst (h_pending ixa tt ixa v) = Some (RErr (EAborted (abort_code v))).
+Theorem pending_abort_surfaces ixa sk v : abort_code v <> 184 ->
+  fst (h_pending ixa sk tt ixa v) = Some (RErr (EAborted (abort_code v))).
 Proof. intros Hc. unfold h_pending. rewrite N.eqb_refl. destruct (abort_code v =? 184) eqn:E; [lia|reflexivity]. Qed.
 
-Theorem pending_query_abort_surfaces c ixa rest : c <> 184 ->
-  fst (h_pending ixa tt ixa (VRec (VInt c :: rest))) = Some (RErr (EAborted c)).
-Proof. intros H. apply (pending_abort_surfaces ixa (VRec (VInt c :: rest))). exact H. Qed.
+Theorem pending_query_abort_surfaces c ixa sk rest : c <> 184 ->
+  fst (h_pending ixa sk tt ixa (VRec (VInt c :: rest))) = Some (RErr (EAborted c)).
+Proof. intros H. apply (pending_abort_surfaces ixa sk (VRec (VInt c :: rest))). exact H. Qed.
 
-Theorem pending_other_packet_is_unexpected ixa i v : i <> ixa -> fst (h_pending ixa tt i v) = Some (RErr EUnexpectedPacket).
-Proof. intros H. unfold h_pending. destruct (i =? ixa) eqn:E; [lia|reflexivity]. Qed.
+(* since the fix of F17: progress reports in front of the answer are passed over (so an abort behind them surfaces, by
+   abort_at_any_position); any OTHER packet of the reply set is unexpected *)
+Theorem pending_progress_is_skipped ixa sk i v : i <> ixa -> In i sk -> h_pending ixa sk tt i v = (None, tt).
+Proof.
+  intros H Hin. unfold h_pending. destruct (i =? ixa) eqn:E; [lia|].
+  assert (X : existsb (N.eqb i) sk = true) by (apply existsb_exists; exists i; split; [exact Hin|apply N.eqb_refl]).
+  rewrite X. reflexivity.
+Qed.
+Theorem pending_other_packet_is_unexpected ixa sk i v : i <> ixa -> ~ In i sk -> fst (h_pending ixa sk tt i v) = Some (RErr EUnexpectedPacket).
+Proof.
+  intros H Hn. unfold h_pending. destruct (i =? ixa) eqn:E; [lia|].
+  destruct (existsb (N.eqb i) sk) eqn:X; [|reflexivity].
+  apply existsb_exists in X. destruct X as [j [Hj Ej]]. apply N.eqb_eq in Ej. subst j. contradiction.
+Qed.
 
 (* ================================================================== the text fields of the summary (format!("{:0w$}", n)) *)
 Definition is_digit (c : N) : Prop := 48 <= c <= 57.
